@@ -42,6 +42,34 @@ func expandSite(s *inlineSite, k int, overlay map[string][]byte) (*expansion, er
 	if !ok {
 		return nil, fmt.Errorf("no signature")
 	}
+	// a generic helper: the signature of this call's instantiation, and the type
+	// arguments to put in the place of the type parameters in the body
+	typeArgs := map[types.Object]types.Type{}
+	if helper.Type.TypeParams != nil {
+		if s.form == "value" || s.call == nil {
+			return nil, fmt.Errorf("generic helper used as a value")
+		}
+		fun := s.call.Fun
+		if ix, isIx := fun.(*ast.IndexExpr); isIx {
+			fun = ix.X
+		}
+		if ix, isIx := fun.(*ast.IndexListExpr); isIx {
+			fun = ix.X
+		}
+		id, _ := fun.(*ast.Ident)
+		if sel, isSel := fun.(*ast.SelectorExpr); isSel {
+			id = sel.Sel
+		}
+		inst, have := cinfo.Instances[id]
+		isig, isSig := inst.Type.(*types.Signature)
+		if id == nil || !have || !isSig || inst.TypeArgs.Len() != sig.TypeParams().Len() {
+			return nil, fmt.Errorf("instantiation of the generic helper not found")
+		}
+		for i := 0; i < sig.TypeParams().Len(); i++ {
+			typeArgs[sig.TypeParams().At(i).Obj()] = inst.TypeArgs.At(i)
+		}
+		sig = isig
+	}
 	// qualifier for type strings: names as imported in the caller's file
 	imports := map[string]string{}
 	for _, im := range s.file.Imports {
@@ -191,7 +219,9 @@ func expandSite(s *inlineSite, k int, overlay map[string][]byte) (*expansion, er
 		}
 		if helper.Recv != nil && len(helper.Recv.List) == 1 && len(helper.Recv.List[0].Names) == 1 && helper.Recv.List[0].Names[0].Name != "_" {
 			if _, isPtr := sig.Recv().Type().Underlying().(*types.Pointer); isPtr {
-				if sel, isSel := s.call.Fun.(*ast.SelectorExpr); isSel {
+				if s.call == nil {
+					// a method value: nothing to substitute
+				} else if sel, isSel := s.call.Fun.(*ast.SelectorExpr); isSel {
 					robj := hinfo.Defs[helper.Recv.List[0].Names[0]]
 					if name := localVarName(sel.X, true); name != "" && robj != nil && onlySelectorBase(robj) {
 						substitute[robj] = name
@@ -208,7 +238,7 @@ func expandSite(s *inlineSite, k int, overlay map[string][]byte) (*expansion, er
 					continue
 				}
 				for _, nm := range names {
-					if ai < len(s.call.Args) && ai < sig.Params().Len() && nm.Name != "_" {
+					if s.call != nil && ai < len(s.call.Args) && ai < sig.Params().Len() && nm.Name != "_" {
 						if _, isPtr := sig.Params().At(ai).Type().Underlying().(*types.Pointer); isPtr && !sig.Variadic() {
 							pobj := hinfo.Defs[nm]
 							if name := localVarName(s.call.Args[ai], true); name != "" && pobj != nil && onlySelectorBase(pobj) {
@@ -238,6 +268,10 @@ func expandSite(s *inlineSite, k int, overlay map[string][]byte) (*expansion, er
 			continue
 		}
 		if obj == nil {
+			continue
+		}
+		if ta, isTP := typeArgs[obj]; isTP {
+			copyIdents[i].Name = typeStr(ta)
 			continue
 		}
 		if v, isVar := obj.(*types.Var); isVar && v.IsField() {
@@ -857,7 +891,7 @@ bound:
 		return stmts
 	})
 	for i := 0; i < nres; i++ {
-		fmt.Fprintf(&out, "var %s %s\n", resName(i), typeStr(sig.Results().At(i).Type()))
+		fmt.Fprintf(&out, "var %s %s\n_ = %s\n", resName(i), typeStr(sig.Results().At(i).Type()), resName(i))
 	}
 	txt, err := printBody()
 	if err != nil {
@@ -1289,6 +1323,67 @@ func exprNonNil(info *types.Info, helper *ast.FuncDecl, e ast.Expr, ret *ast.Ret
 			}
 		}
 		return false
+	case *ast.SelectorExpr:
+		// `if p.err != nil { …; return …, p.err }`: a chain of field selections that
+		// is tested against nil by an enclosing if statement, with nothing between
+		// the test and the return but assignments of call-free expressions to
+		// plain variables (what threading an inner helper's returns leaves behind)
+		if !isFieldChain(info, x) {
+			return false
+		}
+		for i := len(stack) - 1; i > 0; i-- {
+			blk, ok := stack[i].(*ast.BlockStmt)
+			if !ok {
+				if _, isRet := stack[i].(*ast.ReturnStmt); isRet {
+					continue
+				}
+				return false
+			}
+			is, ok := stack[i-1].(*ast.IfStmt)
+			if !ok {
+				if _, inBlock := stack[i-1].(*ast.BlockStmt); inBlock {
+					continue // a nested plain block
+				}
+				return false
+			}
+			if is.Body != blk || is.Init != nil {
+				return false
+			}
+			be, ok := is.Cond.(*ast.BinaryExpr)
+			if !ok || be.Op != token.NEQ {
+				return false
+			}
+			if cy, ok := be.Y.(*ast.Ident); !ok || cy.Name != "nil" || info.Uses[cy] != types.Universe.Lookup("nil") {
+				return false
+			}
+			cx, ok := be.X.(*ast.SelectorExpr)
+			if !ok || !isFieldChain(info, cx) || types.ExprString(cx) != types.ExprString(x) {
+				return false
+			}
+			clean := true
+			ast.Inspect(blk, func(n ast.Node) bool {
+				if n == nil || n.Pos() >= ret.Pos() {
+					return false
+				}
+				switch st := n.(type) {
+				case *ast.CallExpr, *ast.GoStmt, *ast.DeferStmt, *ast.SendStmt, *ast.FuncLit, *ast.IncDecStmt:
+					clean = false
+				case *ast.AssignStmt:
+					for _, l := range st.Lhs {
+						if _, isID := l.(*ast.Ident); !isID {
+							clean = false
+						}
+					}
+				case *ast.UnaryExpr:
+					if st.Op == token.AND || st.Op == token.ARROW {
+						clean = false
+					}
+				}
+				return clean
+			})
+			return clean
+		}
+		return false
 	case *ast.Ident:
 		obj, _ := info.Uses[x].(*types.Var)
 		if obj == nil || obj.IsField() || obj.Parent() == nil || obj.Pkg() == nil || obj.Parent() == obj.Pkg().Scope() {
@@ -1365,4 +1460,24 @@ func isPointerTyped(info *types.Info, e ast.Expr) bool {
 	}
 	_, ok := t.Underlying().(*types.Pointer)
 	return ok
+}
+
+// isFieldChain: x.f.g… where x is a local variable (or parameter or receiver)
+// and every selection is a field.
+func isFieldChain(info *types.Info, e *ast.SelectorExpr) bool {
+	for {
+		sel := info.Selections[e]
+		if sel == nil || sel.Kind() != types.FieldVal {
+			return false
+		}
+		switch x := e.X.(type) {
+		case *ast.SelectorExpr:
+			e = x
+		case *ast.Ident:
+			v, ok := info.Uses[x].(*types.Var)
+			return ok && !v.IsField() && v.Pkg() != nil && v.Parent() != v.Pkg().Scope()
+		default:
+			return false
+		}
+	}
 }
